@@ -15,8 +15,11 @@ pub fn schmidt_number<T: AsRef<[Complex<f64>]>>(amplitudes: T) -> Result<f64, SP
     .ok_or(SPDCError(
       "SVD did not converge while calculating schmidt number".into(),
     ))?;
-  let norm_sq = svd.singular_values.norm_squared();
-  let kinv = svd.singular_values.fold(0., |acc, x| acc + x.powi(4));
+  // K is a ratio of power sums of the singular values: normalise them by the largest one first, so that
+  // sigma^4 neither underflows nor overflows for very small or very large amplitudes
+  let singular_values = &svd.singular_values / svd.singular_values.max();
+  let norm_sq = singular_values.norm_squared();
+  let kinv = singular_values.fold(0., |acc, x| acc + x.powi(4));
   Ok(norm_sq * norm_sq / kinv)
 }
 
